@@ -217,7 +217,7 @@ theorem PvLoopOut.facts {g : Game P M} {p : P} {d : Nat} {α β : Int} {c : Ctl 
     obtain ⟨hn, himp, hge⟩ := h
     exact ⟨hn, fun _ hw => hn.win himp hw, fun h1 _ => by omega, fun h1 _ => by omega, fun _ hv => hn.noLoss himp hv⟩
 
-theorem pvNode_good [DecidableEq M] {g : Game P M} (hg : GameOK g) (he : EvalOK g) (hinj : HashInj g)
+theorem pvNode_good [DecidableEq M] {g : Game P M} (hg : GameOK g) (he : EvalOK g) (hinj : HashOK g)
     {cfg : SOpts} (hpr : Precise cfg) {o : Oracle M} (hnc : NoCancel o) (hord : OrderOK o) (frame : Bool)
     {cpv : PvFn P M} {czw : ZwFn P M} (hp : PvGood g cpv) (hz : ZwGood g czw) :
     PvGood g (pvNode g cfg o frame cpv czw) := by
@@ -378,7 +378,7 @@ theorem ZwLoopOut.facts {g : Game P M} {p : P} {d : Nat} {α : Int} {c : Ctl (Zw
     simp only [if_true]
     exact ⟨fun _ hw => hwin (by omega), fun h1 _ => by omega, fun h1 _ => by omega, fun _ hv => hnl (by omega)⟩
 
-theorem zwNode_good [DecidableEq M] {g : Game P M} (hg : GameOK g) (he : EvalOK g) (hinj : HashInj g)
+theorem zwNode_good [DecidableEq M] {g : Game P M} (hg : GameOK g) (he : EvalOK g) (hinj : HashOK g)
     {cfg : SOpts} (hpr : Precise cfg) {o : Oracle M} (hnc : NoCancel o) (hord : OrderOK o) (frame : Bool)
     {czw : ZwFn P M} (hz : ZwGood g czw) :
     ZwGood g (zwNode g cfg o frame czw) := by
@@ -438,7 +438,7 @@ theorem zwNode_good [DecidableEq M] {g : Game P M} (hg : GameOK g) (he : EvalOK 
           exact ⟨hts4, hfacts.2⟩
 
 /-- **good tables and good results** (cancel flag clear, precise options, any good table, any move order) -/
-theorem search_good [DecidableEq M] {g : Game P M} (hg : GameOK g) (he : EvalOK g) (hinj : HashInj g)
+theorem search_good [DecidableEq M] {g : Game P M} (hg : GameOK g) (he : EvalOK g) (hinj : HashOK g)
     {cfg : SOpts} (hpr : Precise cfg) {o : Oracle M} (hnc : NoCancel o) (hord : OrderOK o) :
     ∀ n, PvGood g (search g cfg o n).1 ∧ ZwGood g (search g cfg o n).2 := by
   intro n
